@@ -2,7 +2,7 @@
 import re
 from .. import flow, lin
 from ..aff import aff_sym, aff_const, aff_add, aff_str, TOP
-from ..facts import op_place, callee_def
+from ..facts import op_place, op_const, const_int, callee_def
 from ..common import strip_generics
 
 P = "preflate_rs::"
@@ -395,3 +395,106 @@ REVIEWED = {
     ("idat_parse::recreate_idat", "range", "var(contents)[var(index)..Add(var(index), var(chunk_size)).0]"):
         ("the chunk sizes sum to contents.len() (sum check), so the running index never passes the end", _sum_check),
 }
+
+
+_SHRINK = re.compile(r"Vec::(truncate|clear|pop|drain|remove|swap_remove|split_off|set_len|retain|dedup|resize|resize_with|shrink_to|shrink_to_fit)$|mem::take$|mem::replace$")
+
+
+def _len_lower_bound(F, L, b, op, at, depth=0):
+    """Provable lower bound of the number of elements of the container `op` at block `at`, or None: a fixed-size array type;
+    a Vec local whose `resize(K, _)` dominates `at` with no length-changing call in between; a slice/reference parameter
+    whose every caller passes such a container."""
+    root = L.container_root(op)
+    if root is None:
+        return None
+    kind, l, path = root
+    ty = flow.strip_lifetimes(b.local_ty(l))
+    if kind == "local":
+        m = re.match(r"^(?:&(?:mut )?)*\[[^;\]]+; (\d+)\]$", ty)
+        if m:
+            return int(m.group(1))
+    if kind == "local" and re.match(r"^(&(mut )?)?(std::vec::|alloc::vec::)?Vec<", ty) and not (1 <= l <= b.argc):
+        best = None
+        muts = [(bb, t) for bb, t in b.calls() if t["args"] and L.container_root(t["args"][0]) == root and _SHRINK.search(strip_generics(callee_def(t)))]
+        for rb, t in muts:
+            if not strip_generics(callee_def(t)).endswith("Vec::resize") or not b.dominates(rb, at) or rb == at:
+                continue
+            k = flow.const_eval(b, t["args"][1])
+            if k is None:
+                continue
+            between = [mb for mb, _ in muts if mb != rb and mb in b.reachable_from(rb) and at in b.reachable_from(mb)]
+            # assignments of a new vector to the local between the two
+            reassigned = [d[0] for d in b.defs(l) if d[0] != rb and d[0] in b.reachable_from(rb) and at in b.reachable_from(d[0])]
+            if not between and not reassigned:
+                best = k if best is None else max(best, k)
+        return best
+    if kind == "local" and 1 <= l <= b.argc and depth < 2:
+        callers = []
+        for cn, cb in F.bodies.items():
+            for cbb, ct in cb.calls():
+                c = ct["callee"]
+                tgt = c.get("resolved") if c.get("rlocal") else c.get("def")
+                if tgt == b.name and len(ct["args"]) >= l:
+                    callers.append((cb, cbb, ct["args"][l - 1]))
+        if not callers:
+            return None
+        bounds = []
+        for cb, cbb, a in callers:
+            CL, _, _, _, _ = lin.evaluate(F, cb)
+            bounds.append(_len_lower_bound(F, CL, cb, a, cbb, depth + 1))
+        return None if any(x is None for x in bounds) else min(bounds)
+    return None
+
+
+def x6(ctx, rep, rule="X6"):
+    """An index drawn from a constant table has a known range; the container it indexes must provably cover that range
+    (fixed-size array, Vec resized to a constant beforehand, or a slice every caller of which is one of these).  Unlike the
+    value-dependent sites X5 can only count, these are decidable, so none is tolerated: the code-length order table walks
+    symbols up to 18 while a calculated length vector ends at the last used symbol."""
+    F = ctx.lib
+    defs = set(_analysis_defs(F))
+    roots = F.roots_for([P + "preflate_container::recompress_deflate_stream"])
+    defs |= {F.inst(i)["def"] for i in F.reach(roots) if F.inst(i)["local"] and F.inst(i)["def"] in F.bodies}
+    n = 0
+    for dn in sorted(defs):
+        b = F.bodies[dn]
+        short = dn.replace(P, "")
+        L = None
+        seen = {}
+        for bb in sorted(b.normal_blocks()):
+            t = b.term(bb)
+            idx = cont = ln_const = None
+            if t["k"] == "assert" and t.get("msg") == "BoundsCheck":
+                idx = t["ops"][1]
+                k = op_const(t["ops"][0])
+                ln_const = const_int(k) if k is not None else None
+                tb = t.get("t")
+                for st in (b.stmts(tb) if tb is not None else []):
+                    if st["k"] == "assign":
+                        for pl in flow.places_in(st["r"]):
+                            if any(isinstance(e, dict) and "i" in e for e in pl["p"]):
+                                cont = {"c": {"l": pl["l"], "p": [e for e in pl["p"] if not (isinstance(e, dict) and "i" in e)]}}
+            elif t["k"] == "call" and len(t["args"]) == 2 and re.search(r"(Index::index|IndexMut::index_mut)$", strip_generics(callee_def(t))):
+                ap = op_place(t["args"][1])
+                if ap is not None and not ap["p"] and b.local_ty(ap["l"]) == "usize":
+                    idx, cont = t["args"][1], t["args"][0]
+            if idx is None:
+                continue
+            d = flow.describe(b, idx, names=True)
+            m = re.match(r"^(?:cast\()?const:([\w:]+)\[", d)
+            if not m:
+                continue
+            try:
+                tmax = max(F.const_array(P + m.group(1)))
+            except Exception:
+                continue
+            n += 1
+            if L is None:
+                L, _, _, _, _ = lin.evaluate(F, b)
+            lb = ln_const if ln_const is not None else (_len_lower_bound(F, L, b, cont, bb) if cont is not None else None)
+            key0 = "%s|%s" % (short, re.sub(r"\[.*$", "", d))
+            seen[key0] = seen.get(key0, 0) + 1
+            key = key0 + ("" if seen[key0] == 1 else "#%d" % seen[key0])
+            rep.add(rule, "table-indexed-container-covers-table:" + key, lb is not None and tmax < lb, b.where(bb),
+                    "index is an element of %s (max %d); container length provably >= %s" % (m.group(1), tmax, lb))
+    rep.floor(rule, "table-indexed-sites", n, 2)
